@@ -19,7 +19,7 @@ Definition is_count (a : option Z) (ds : list Z) : Prop :=
   match a, ds with None, d :: _ => d <> 0 | _, _ => True end.
 
 Definition with_arg (s : kst) (a : option Z) : kst :=
-  mkks (ks_vst s) a (ks_oparg s) (ks_op s) (ks_last s).
+  mkks (ks_vst s) a (ks_oparg s) (ks_op s) (ks_last s) (ks_find s).
 
 Lemma with_arg_same s : with_arg s (ks_arg s) = s.
 Proof. destruct s; reflexivity. Qed.
@@ -53,23 +53,30 @@ Proof.
     destruct (ks_arg s) as [a|] eqn:Ea.
     + cbn [fst snd ks_vst]. change (0 =? 0) with true. rewrite Hi. cbn [negb andb].
       rewrite IH by (cbn [ks_arg ks_vst ks_op is_count digits_ok]; first [exact I | exact Hi | exact Hok]).
-      cbn [ks_arg typed with_arg ks_vst ks_oparg ks_op ks_last]. reflexivity.
+      cbn [ks_arg typed with_arg ks_vst ks_oparg ks_op ks_last ks_find]. reflexivity.
     + cbn [is_count] in Hc. destruct (d =? 0) eqn:Ed; [lia|].
       cbn [fst snd ks_vst]. change (0 =? 0) with true. rewrite Hi. cbn [negb andb].
       rewrite IH by (cbn [ks_arg ks_vst ks_op is_count digits_ok]; first [exact I | exact Hi | exact Hok]).
-      cbn [ks_arg typed with_arg ks_vst ks_oparg ks_op ks_last]. reflexivity.
+      cbn [ks_arg typed with_arg ks_vst ks_oparg ks_op ks_last ks_find]. reflexivity.
 Qed.
 
 (* nothing pending any more; the cursor fix-up of navigation mode has run
    (KeyProcessor._fix_vi_cursor_position runs after every handler) *)
 Definition cleared (s : kst) : kst :=
-  mkks (with_buf (ks_vst s) (fix_vi_cursor (vbuf (ks_vst s)))) None None None (ks_last s).
+  mkks (with_buf (ks_vst s) (fix_vi_cursor (vbuf (ks_vst s)))) None None None (ks_last s) (ks_find s).
 
 Lemma cleared_nav s :
-  nav_cursor (vbuf (ks_vst s)) -> cleared s = mkks (ks_vst s) None None None (ks_last s).
+  nav_cursor (vbuf (ks_vst s)) -> cleared s = mkks (ks_vst s) None None None (ks_last s) (ks_find s).
 Proof.
-  intros H. unfold cleared. rewrite H. destruct s as [[b c r i] a oa op l]. reflexivity.
+  intros H. unfold cleared. rewrite H. destruct s as [[b c r i] a oa op l f]. reflexivity.
 Qed.
+
+(* the only thing a cancelled f F t T leaves behind: the stored search *)
+Definition with_find (s : kst) (f : option (Z * bool)) : kst :=
+  mkks (ks_vst s) (ks_arg s) (ks_oparg s) (ks_op s) (ks_last s) f.
+
+Lemma with_find_same s : with_find s (ks_find s) = s.
+Proof. destruct s; reflexivity. Qed.
 
 (* <count> operator <count> Esc: nothing happens to the buffer and registers,
    and NO count or operator survives it (whatever was typed before), so the
@@ -96,7 +103,7 @@ Lemma applied_operator_clears p s m status s' :
 Proof.
   intros Hop H Hs. unfold key_step_gen in H.
   destruct (ks_op s) as [[k keys]|]; [|contradiction].
-  destruct (text_object m _ _ _) as [o failed|].
+  destruct (text_object _ _ _ _) as [o failed|].
   - destruct (p && cancelled o failed).
     + injection H as _ <-. repeat split.
     + destruct (run_op k (ks_vst s) o _) as [st0 st1]. injection H as _ <-. repeat split.
@@ -113,12 +120,12 @@ Definition pending_count (oparg arg : option Z) : Z * bool :=
 Lemma operator_motion_step s k keys m o failed :
   ks_op s = Some (k, keys) ->
   let '(n, hc) := pending_count (ks_oparg s) (ks_arg s) in
-  text_object m (bdoc (vbuf (ks_vst s))) n hc = TO o failed ->
+  text_object (resolve_tok (ks_find s) m) (bdoc (vbuf (ks_vst s))) n hc = TO o failed ->
   cancelled o failed = false ->
   key_step s (KM m) =
   (let '(status, st1) := run_op k (ks_vst s) o (mkev n keys) in
    (status, mkks (if (status =? 0) && negb (vins st1) then with_buf st1 (fix_vi_cursor (vbuf st1)) else st1)
-                 None None None (Some (o, failed)))).
+                 None None None (Some (o, failed)) (upd_find (ks_find s) m))).
 Proof.
   intros Hop. unfold pending_count. intros Ht Hc. unfold key_step, key_step_gen.
   rewrite Hop, Ht, Hc. cbn [andb]. reflexivity.
@@ -130,9 +137,9 @@ Qed.
 Lemma wrapper_cancels s k keys m o failed :
   ks_op s = Some (k, keys) ->
   let '(n, hc) := pending_count (ks_oparg s) (ks_arg s) in
-  text_object m (bdoc (vbuf (ks_vst s))) n hc = TO o failed ->
+  text_object (resolve_tok (ks_find s) m) (bdoc (vbuf (ks_vst s))) n hc = TO o failed ->
   cancelled o failed = true ->
-  key_step s (KM m) = (0, cleared s).
+  key_step s (KM m) = (0, with_find (cleared s) (upd_find (ks_find s) m)).
 Proof.
   intros Hop. unfold pending_count. intros Ht Hc. unfold key_step, key_step_gen.
   rewrite Hop, Ht, Hc. reflexivity.
@@ -145,7 +152,7 @@ Proof. reflexivity. Qed.
 Lemma wrapper_same_as_pinned s k keys m o failed :
   ks_op s = Some (k, keys) ->
   let '(n, hc) := pending_count (ks_oparg s) (ks_arg s) in
-  text_object m (bdoc (vbuf (ks_vst s))) n hc = TO o failed ->
+  text_object (resolve_tok (ks_find s) m) (bdoc (vbuf (ks_vst s))) n hc = TO o failed ->
   cancelled o failed = false ->
   key_step s (KM m) = key_step_pinned s (KM m).
 Proof.
@@ -157,7 +164,7 @@ Qed.
    inclusive / linewise defaults and ran the line operators on any failed
    motion: 'ab' cursor 1 de, 'ab' dj, 'abc def' cursor 4 >Fx *)
 Definition pend (text : str) (cur : Z) (k : opk) (keys : list Z) : kst :=
-  mkks (mkvst (mkbuf text cur) None None false) None None (Some (k, keys)) None.
+  mkks (mkvst (mkbuf text cur) None None false) None None (Some (k, keys)) None None.
 
 Lemma failed_motion_pinned_not_noop :
   (text_object (T_e false) (mkdoc [97; 98] 1) 1 false = TO (mkto 0 0 INCL) true /\
